@@ -131,7 +131,7 @@ func plainLinesOfRaw(raw []byte) []string {
 func commentText(r *RNG, enc string, light bool) []byte {
 	n := r.Range(0, 14)
 	if r.Chance(1, 150) && !light {
-		n = 30000 // a comment longer than common buffer sizes (64 KiB in bytes)
+		n = pick(r, []int{30000, 33000, 70000}) // a comment line longer than common buffer sizes (64 KiB) in either encoding
 	}
 	var b []byte
 	// bias: sometimes end the comment with a 0x5c / 0x7c trail character or half-width kana
@@ -417,6 +417,11 @@ func (s *Scenario) buildWorld(W string, src []byte, image []byte) (*worldPaths, 
 		wp.stdinData = append([]byte{}, src...)
 	case "relative", "dotslash":
 		must(os.WriteFile(srcAbs, src, 0644))
+	case "dotdot_via_symlink":
+		must(os.MkdirAll(filepath.Join(W, "sdeep", "sub"), 0777))
+		must(os.Symlink(filepath.Join(W, "sdeep", "sub"), filepath.Join(W, "slnk")))
+		srcAbs = filepath.Join(W, "sdeep", srcName)
+		must(os.WriteFile(srcAbs, src, 0644))
 	case "barename": // a bare file name in the current directory, with an unusual first character
 		srcName = pick(r, []string{"01_hello.nas", "3d.nas", "2", "+x.nas", "=a.nas", "@file.nas", "~tilde.nas", ".hidden.nas", "a b.nas", "名前.nas", "1"})
 		srcAbs = filepath.Join(W, srcName)
@@ -438,6 +443,8 @@ func (s *Scenario) buildWorld(W string, src []byte, image []byte) (*worldPaths, 
 		wp.SrcArg = ""
 	case "stdin":
 		wp.SrcArg, wp.SrcAbs = "/dev/stdin", "/dev/stdin"
+	case "dotdot_via_symlink":
+		wp.SrcArg = "slnk/../" + srcName
 	case "barename":
 		wp.SrcArg = srcName
 	case "relative":
@@ -517,6 +524,13 @@ func (s *Scenario) buildWorld(W string, src []byte, image []byte) (*worldPaths, 
 		dstArg = filepath.Join("out", dstName)
 	case "dotdot":
 		dstArg = filepath.Join("in", "..", "out", dstName)
+	case "dotdot_via_symlink": // "lnk/../name": the kernel resolves .. through the symlink, a lexical clean-up does not
+		must(os.MkdirAll(filepath.Join(W, "deep", "sub"), 0777))
+		os.Chmod(filepath.Join(W, "deep"), 0777)
+		os.Chmod(filepath.Join(W, "deep", "sub"), 0777)
+		must(os.Symlink(filepath.Join(W, "deep", "sub"), filepath.Join(W, "lnk")))
+		dstAbs = filepath.Join(W, "deep", dstName)
+		dstArg = "lnk/../" + dstName
 	case "longname":
 		dstAbs = filepath.Join(W, "out", strings.Repeat("d", 300))
 		dstArg = dstAbs
